@@ -30,6 +30,15 @@ def relabel(ctx, rule: str, *fns):
         ctx.obligations = saved + ctx.obligations
 
 
+def relabel_parts(rule: str, *fns):
+    """One closure per shared rule function, so that the views of the program are consulted for each mechanism separately."""
+    def mk(fn):
+        def part(ctx):
+            relabel(ctx, rule, fn)
+        return part
+    return [mk(fn) for fn in fns]
+
+
 def entry_points(project: Project) -> List[FunctionInfo]:
     """Every function of the package through which a caller asks for a model matrix: all defs named
     ``get_model_matrix`` / ``model_matrix`` that are not abstract stubs.  Discovered, with the
